@@ -356,7 +356,48 @@ def o_accept_b58(case):
         _bad("address:reencoding-differs", "%s %r -> script %s -> %r which parses to %r" % (code, s, sc.hex(), again, c2))
     if again != s:
         _bad("address:reencoding-differs", "%s %r re-encodes as %r" % (code, s, again))
-    return lab + ["accepted"]
+    # texts that contain a character outside the alphabet but would carry the same number under a forgiving digit lookup
+    n_alias = 0
+    for how, alias in b58_aliases(s):
+        n_alias += 1
+        if parse_addr(code, alias) is not None:
+            _bad("address:non-alphabet-alias-accepted", "%s parse.address(%r) accepted (%s of the valid address %r); it contains a character that "
+                 "is not a Base58 digit" % (code, alias, how, s))
+    return lab + ["accepted"] + (["aliases-refused"] if n_alias else [])
+
+
+_B58 = "123456789ABCDEFGHJKLMNPQRSTUVWXYZabcdefghijkmnopqrstuvwxyz"
+
+
+def b58_aliases(s, cap=3):
+    """[(description, text)]: `s` with a non-alphabet character planted such that a careless digit lookup (not found = -1,
+    not found = 0, look-alike folding) reads the same number"""
+    out = []
+    lead = len(s) - len(s.lstrip("1"))
+    # digit pair X z == (X+1) <digit -1>
+    k = 0
+    for i in range(lead, len(s) - 1):
+        if s[i + 1] == "z" and s[i] != "z" and k < cap:
+            for bad in ("0", "O", "l", " "):
+                out.append(("digit pair %r rewritten as next digit + %r (value -1)" % (s[i:i + 2], bad), s[:i] + _B58[_B58.index(s[i]) + 1] + bad + s[i + 2:]))
+            k += 1
+    # a zero digit replaced by a character that is not a digit at all (value 0)
+    k = 0
+    for i in range(lead, len(s)):
+        if s[i] == "1" and k < cap:
+            for bad in ("0", "I", "l", "_"):
+                out.append(("zero digit at %d replaced by %r" % (i, bad), s[:i] + bad + s[i + 1:]))
+            k += 1
+    if lead:
+        out.append(("leading zero digit replaced by 'l'", "l" + s[1:]))
+        out.append(("leading zero digit replaced by 'I'", "I" + s[1:]))
+    # look-alikes
+    for a, bads in (("o", "0O"), ("L", "l"), ("i", "I"), ("1", "Il")):
+        i = s.find(a, lead)
+        if i >= 0:
+            for bad in bads:
+                out.append(("%r at %d replaced by the look-alike %r" % (a, i, bad), s[:i] + bad + s[i + 1:]))
+    return out
 
 
 _PLEN = [19, 20, 20, 20, 21, 0, 1, 32, 33]
